@@ -530,6 +530,7 @@ func (fc *FuncCtx) execAssign(st *State, x *ast.AssignStmt) {
 				continue
 			}
 			if _, isVar := obj.(*types.Var); isVar && !(obj.Pkg() != nil && obj.Parent() == obj.Pkg().Scope()) {
+				fc.noteSliceCopy(obj, x, i)
 				fc.assignObj(st, obj, vals[i])
 				continue
 			}
@@ -1022,7 +1023,9 @@ func (fc *FuncCtx) execFor(st *State, x *ast.ForStmt) flow {
 	body := head.clone()
 	body.assume(cond)
 	fc.emitCover(body, "loop body reachable", x.Pos())
+	fc.loopDepthPos = append(fc.loopDepthPos, x.Pos())
 	bf := fc.execBlock(body, x.Body.List)
+	fc.loopDepthPos = fc.loopDepthPos[:len(fc.loopDepthPos)-1]
 	ends := append([]*State{bf.next}, bf.cont...)
 	for _, e := range ends {
 		if e == nil {
@@ -1128,7 +1131,9 @@ func (fc *FuncCtx) execRange(st *State, x *ast.RangeStmt) flow {
 	body.assume(Lt(k, n))
 	fc.bindRangeVars(body, x, kind, rv, k, under, true)
 	fc.emitCover(body, "loop body reachable", x.Pos())
+	fc.loopDepthPos = append(fc.loopDepthPos, x.Pos())
 	bf := fc.execBlock(body, x.Body.List)
+	fc.loopDepthPos = fc.loopDepthPos[:len(fc.loopDepthPos)-1]
 	ends := append([]*State{bf.next}, bf.cont...)
 	for _, e := range ends {
 		if e == nil {
@@ -1230,5 +1235,33 @@ func (fc *FuncCtx) bindRangeVars(st *State, x *ast.RangeStmt, kind string, rv Va
 				}
 			}
 		}
+	}
+}
+
+// noteSliceCopy records "x := y" / "x = y" between slice variables when it happens inside a loop and y is declared
+// outside that loop: the two headers share one backing array in every iteration. The model gives slices value
+// semantics, so an append through x that may write into the shared array is outside the model (see evalBuiltin).
+func (fc *FuncCtx) noteSliceCopy(dst types.Object, x *ast.AssignStmt, i int) {
+	if fc.sliceCopies == nil {
+		fc.sliceCopies = map[types.Object]types.Object{}
+	}
+	delete(fc.sliceCopies, dst)
+	if len(fc.loopDepthPos) == 0 || len(x.Rhs) != len(x.Lhs) {
+		return
+	}
+	id, ok := ast.Unparen(x.Rhs[i]).(*ast.Ident)
+	if !ok {
+		return
+	}
+	src := fc.info.ObjectOf(id)
+	if src == nil || src == dst {
+		return
+	}
+	if _, isSlice := types.Unalias(src.Type()).Underlying().(*types.Slice); !isSlice {
+		return
+	}
+	loopPos := fc.loopDepthPos[len(fc.loopDepthPos)-1]
+	if src.Pos() < loopPos {
+		fc.sliceCopies[dst] = src
 	}
 }
